@@ -19,6 +19,7 @@ package checks
 import (
 	"fmt"
 	"golang.org/x/sys/unix"
+	"strings"
 	"syscall"
 	"time"
 
@@ -415,6 +416,12 @@ func C04(tier string) *engine.Report {
 	rep := engine.NewReport("C04", tier, "exploration")
 	var tot engine.DFSTotals
 	done := runLadder(rep, &tot, tier, func(st ioStage) *engine.DFS { return c04DFS(tier, st) })
+	if len(rep.Violations) == 0 {
+		ares := c04ArmFailDFS(tier).Run()
+		tot.Add(ares, rep)
+		rep.Coverage["arm_failures"] = map[string]any{"executions": ares.Executions, "finished": ares.Exhaustive, "violations": len(ares.Violations),
+			"space": "the poller refuses the timer's descriptor (EEXIST through a foreign registration | IO closed) x ScheduleOnce | ScheduleRepeating x fresh | fired-before timer; then the refusal is lifted and the call repeated"}
+	}
 	tot.Fill(rep, "all action sequences up to the depth bound over two (optionally three) real timers and a FIFO reader on one IO: ScheduleOnce/ScheduleRepeating with delays {<=0, 30us awaited to expiry on the timerfd, 10 s never due}, Cancel, Close, new timer, FIFO read, peer data, poll; "+
 		"handler behaviours (cancel, close, cancel+re-arm, schedule on itself or the other timer) from timer and I/O callbacks are deviations, all combinations up to the bound; non-trivial = at least one action", 0)
 	fillLadder(rep, done, len(rep.Violations) > 0)
@@ -423,6 +430,9 @@ func C04(tier string) *engine.Report {
 }
 
 func C04Replay(v engine.Violation, log func(string)) *engine.Violation {
+	if strings.HasPrefix(v.Config, "armfail@") {
+		return c04ArmFailDFS(v.Config[len("armfail@"):]).ReplayChoices(v.Choices)
+	}
 	tier, st := parseStage(v.Config)
 	return c04DFS(tier, st).ReplayChoices(v.Choices)
 }
